@@ -37,7 +37,8 @@ DataRoutines ==
   { <<"als", fl>> : fl \in { <<w, lam>> : w \in BOOLEAN, lam \in {"small", "one"} } } \cup
   { <<"als_adaptive", <<y0>> >> : y0 \in {"rank1", "overrank"} } \cup      \* initial approximation: rank 1 / ranks above what a core carries
   { <<"anova", <<ord>> >> : ord \in {1, 2} } \cup
-  { <<"anova_func", <<0>> >>, <<"als_func", <<0>> >> }
+  { <<"anova_func", <<lam>> >> : lam \in {0, 1, 2} } \cup       \* 0: defaults; 1: lamb = 0 with more basis functions than distinct abscissae; 2: the same with the default lamb
+  { <<"als_func", <<0>> >> }
 Cases == { [fam |-> f, routine |-> r[1], flags |-> r[2], data |-> FALSE] : f \in Families, r \in TensorRoutines } \cup
          { [fam |-> f, routine |-> r[1], flags |-> r[2], data |-> TRUE] : f \in DataFamilies, r \in DataRoutines }
 \* outcome class
